@@ -50,7 +50,9 @@ LEVEL_NOTE = ("Trusted: Coq kernel + vm_compute; the granularity assumption (one
               "write (its result is regenerated into Gen/C19_Shape.v and checked against the model's step list); CPython tuple/dict/frozenset "
               "equality behind the abstract key function. Partial: the LRU interleaving theorem (returned values were stored under the "
               "caller's own key, exceptions allowed) is proved for the model of OrderedDict iteration/KeyError behaviour, which is exercised on "
-              "the implementation only through the oracle on scheduled runs, not replayed in Coq. No axioms (Print Assumptions: closed).")
+              "the implementation only through the oracle on scheduled runs, not replayed in Coq. Finding F-C19-2 (LRU wrapper under "
+              "interleaving can serve a value older than the validity period) is refuted in the model and guarded in the harness. "
+              "No axioms (Print Assumptions: closed).")
 DESIGN_REF = "DESIGN.md section 8, C19"
 COQ_IMPORTS = "From Orso Require Import Model.C19."
 COQ_CHECKS = {"sic": "c19_sic_check", "lru": "c19_lru_check", "conc": "c19_conc_check"}
@@ -74,7 +76,12 @@ ASSUMPTIONS = [
     "argument equality is an equivalence decided by key equality (hypothesis keqb_spec of the theorems); NaN-like values are outside the alphabet",
     "the clock does not go backwards (ticks are naturals); the LRU 'most recently used' theorems use it, the single-item ones do not",
 ]
-KNOWN_WITNESSES = {}
+KNOWN_WITNESSES = {
+    # caller 0 is paused after invoking f (before storing), the clock moves past the validity period,
+    # caller 1 sweeps, caller 0 stores with its old timestamp, caller 1 is served that entry
+    "F-C19-2": {"k": "conc", "w": "lru", "max": 2, "valid": 5, "pre": [],
+                "thr": [{"p": [1], "kw": []}, {"p": [1], "kw": []}], "sched": [0, 0, 0, 0, ["t", 6], 1, 1]},
+}
 
 T0 = 1000
 TIMEOUT = 20.0
@@ -608,7 +615,7 @@ def oracle_lru(case, obs):
     return None
 
 
-def oracle_conc(case, obs):
+def oracle_conc(case, obs, check_fresh=True):
     valid = case["valid"]
     inv_specs = [i[0] for i in obs["inv"]]
     inv_times = [i[1] for i in obs["inv"]]
@@ -618,7 +625,7 @@ def oracle_conc(case, obs):
             if case["w"] == "lru" and o["exc"] in ("RuntimeError", "KeyError"):
                 continue  # an exception is an allowed outcome of the LRU wrapper under interleaving
             return f"{where}: raised {o['exc']}"
-        why = _check_value(where, spec, o, inv_specs, inv_times, valid, o["now"])
+        why = _check_value(where, spec, o, inv_specs, inv_times, valid, o["now"] if check_fresh else None)
         if why:
             return why
     return None
@@ -702,6 +709,13 @@ def to_coq(case, obs):
 
 
 def known(case, obs):
+    """F-C19-2: LRU wrapper, finite validity, the clock advances while calls are in flight, and the ONLY
+    thing wrong is the age of a value served from the cache (wrong arguments, unexpected exceptions
+    etc. on the same inputs are still reported)."""
+    if (case["k"] == "conc" and case["w"] == "lru" and case["valid"] is not None
+            and any(e[0] == "t" for e in obs["sched"])
+            and oracle_conc(case, obs) is not None and oracle_conc(case, obs, check_fresh=False) is None):
+        return "F-C19-2"
     return None
 
 
@@ -841,6 +855,14 @@ def exhaustive(tier):
         for pre, thr in configs:
             for s in two_thread_schedules(n):
                 yield {"k": "conc", "w": "sic", "valid": V, "pre": pre, "thr": thr, "sched": s}
+        # LRU wrapper, two callers, one context switch each way with a clock advance at the first switch
+        # (the neighbourhood of finding F-C19-2; oracle only)
+        nl = len(shapes()["lru"][2]) - 1
+        for pre, thr in (([], [a1, a1]), ([C(a0)], [a1, a1]), ([C(a1)], [a1, a0])):
+            for i in range(0, nl):
+                for j in range(0, nl):
+                    yield {"k": "conc", "w": "lru", "max": 2, "valid": V, "pre": pre, "thr": thr,
+                           "sched": [0] * i + [Tk(V + 1)] + [1] * j + [0] * 12 + [1] * 12}
         for attr in ("column_names", "columncount"):
             for pre, thr in ((2, [0, 1]), (0, [0, 1]), (1, [0, 1]), (2, [0, 0]), (0, [1, 1])):
                 if quick and (attr == "columncount" and pre != 2):
@@ -850,7 +872,7 @@ def exhaustive(tier):
 
     return it(), ("sequential: all histories of depth <= %s over {4 (sic) / 3 (lru) argument packs, tick 1, tick validity} with validity 2, "
                   "max_size 1..4; concurrent: %s of two calls (%d shared-access lines each) for %d initial-state/argument configurations, and "
-                  "DataFrame.column_names/columncount across two frames"
+                  "DataFrame.column_names/columncount across two frames; LRU wrapper: two callers, schedules 0^i tick 1^j 0* 1* for i, j < 9"
                   % ("3" if quick else "5 (4 for max_size 3, 4)",
                      "all interleavings of the shared-access lines" if math.comb(2 * n, n) <= 300 else "all schedules with at most three context switches",
                      n, len(CONC_CONFIGS_QUICK) + (0 if quick else len(CONC_CONFIGS_MORE))))
